@@ -768,13 +768,22 @@ impl Scenario {
         }
     }
 
-    /// (font bytes, tokens for the two tables)
-    fn build(&self) -> (Vec<u8>, String, String) {
+    /// (font bytes, tokens for the two tables).  `inverted` selects which view of the character
+    /// map the format-1 code path sees: `Charmap::mappings()` (limited to the maxp glyph count) for
+    /// inverted codepoint sets, `Charmap::map(cp)` per member (unlimited) otherwise.
+    fn build(&self, inverted: bool) -> (Vec<u8>, String, String) {
         // what the real Charmap reports (the model takes the charmap as given: C08)
         let probe = build_font(None, None, self.maxp, &self.cmap);
         let real_cmap: Vec<(u32, u32)> = {
             let f = FontRef::new(&probe).unwrap();
-            let mut v: Vec<(u32, u32)> = Charmap::new(&f).mappings().map(|(c, g)| (c, g.to_u32())).collect();
+            let cm = Charmap::new(&f);
+            let mut v: Vec<(u32, u32)> = cm.mappings().map(|(c, g)| (c, g.to_u32())).collect();
+            if !inverted {
+                let mut cps: BTreeSet<u32> = v.iter().map(|(c, _)| *c).collect();
+                cps.extend(self.cmap.iter().map(|(c, _)| *c));
+                cps.insert(0xFFFF);
+                v = cps.into_iter().filter_map(|c| cm.map(c).map(|g| (c, g.to_u32()))).collect();
+            }
             v.sort();
             v.dedup();
             v
@@ -824,13 +833,18 @@ fn gen_scenario(rng: &mut Rng, allow_errors: bool, f1_weight: u64) -> Scenario {
 // ------------------------------------------------------------------------------------------
 
 fn isect_and_select(s: &mut Session, rng: &mut Rng, sc: &Scenario, ndefs: usize) {
-    let (font, ta, tb) = sc.build();
+    let (font, ta_inv, tb_inv) = sc.build(true);
+    let (_, ta_map, tb_map) = sc.build(false);
     let all_offer = offered(&font, &SubsetDefinition::all());
     for _ in 0..ndefs {
         let d = gen_def(rng, 90);
         let dt = def_tokens(&d);
+        let (ta, tb) = if d.codepoints.is_inverted() { s.count("isect:def-inverted"); (&ta_inv, &tb_inv) } else { (&ta_map, &tb_map) };
         let off = offered(&font, &d);
         let shown = show_offered(&off);
+        if let Ok(pat) = std::env::var("C19_FIND") {
+            if format!("isect {dt} {ta} {tb}").starts_with(&pat) { eprintln!("FOUND font={} impl={shown}", hex(&font)); }
+        }
         s.case("isect", format!("isect {dt} {ta} {tb}"), shown.clone());
         let input = || format!("isect {dt} {ta} {tb} | font={}", hex(&font));
         s.oracle("isect-no-panic", off.is_ok(), input, || shown.clone());
@@ -905,25 +919,51 @@ fn isect_and_select(s: &mut Session, rng: &mut Rng, sc: &Scenario, ndefs: usize)
                 };
                 s.oracle("at-most-one-invalidating-per-table", n_ift <= 1 && n_iftx <= 1, sinput, || sel_shown.clone());
                 if full { s.oracle("full-invalidation-alone", uris.len() == 1, sinput, || sel_shown.clone()); }
-                // chosen invalidating patches are maxima of their class
+                // chosen invalidating patches are maxima of their class (largest intersection, then
+                // earliest entry), identified by (table, application bit) - the same uri may be
+                // offered by both tables
                 if let Ok(Ok(v)) = &off {
                     let any_full = v.iter().any(|(u, _)| fmt_number(&u.encoding) == 1);
                     s.oracle("full-candidate-forces-full-group", any_full == full, sinput, || format!("{sel_shown} offered={shown}"));
-                    for chosen in inval {
-                        // the candidates this one competed with: same encoding class, and for partial: same table
-                        let me: Vec<&pmh::PatchUriView> = v.iter().filter(|(_, s)| s.as_ref().ok() == Some(chosen)).map(|(u, _)| u).collect();
-                        let class_fmt = if full { 1 } else { 2 };
-                        let best_me = me.iter().filter(|u| fmt_number(&u.encoding) == class_fmt).map(|u| (info_key(u), u.is_iftx)).max();
-                        if let Some((best_key, tbl)) = best_me {
-                            let beaten = v.iter().any(|(u, us)| fmt_number(&u.encoding) == class_fmt && (full || u.is_iftx == tbl)
-                                && info_key(u) > best_key && us.is_ok()
-                                // a partial candidate for IFTX is excluded if it is the uri picked for IFT
-                                && !(inval.len() == 2 && !full && us.as_ref().ok() == inval.first() && tbl));
-                            s.oracle("invalidating-choice-is-max", !beaten, sinput, || format!("{sel_shown} offered={shown}"));
-                        } else {
-                            s.oracle("invalidating-choice-is-offered", false, sinput, || format!("{sel_shown} offered={shown}"));
+                    let mut chosen: Vec<(&pgh::PatchInfoView, u8)> = vec![];
+                    let mut ift_uri: Option<&String> = None;
+                    match g {
+                        pgh::GroupView::Full(p) => chosen.push((p, 1)),
+                        pgh::GroupView::Mixed { ift, iftx } => {
+                            if let pgh::ScopeView::PartialInvalidation(p) = ift { chosen.push((p, 2)); ift_uri = Some(&p.uri); }
+                            if let pgh::ScopeView::PartialInvalidation(p) = iftx { chosen.push((p, 2)); }
                         }
                     }
+                    s.oracle("invalidating-uris-are-the-slots", inval.len() == chosen.len() && inval.iter().zip(chosen.iter()).all(|(a, (p, _))| *a == p.uri), sinput, || sel_shown.clone());
+                    for (k, (p, class_fmt)) in chosen.iter().enumerate() {
+                        let me = v.iter().find(|(u, _)| ident(u) == (p.is_iftx, p.application_flag_bit_index));
+                        match me {
+                            None => s.oracle("invalidating-choice-is-offered", false, sinput, || format!("{sel_shown} offered={shown}")),
+                            Some((me, me_uri)) => {
+                                s.oracle("invalidating-choice-is-offered", fmt_number(&me.encoding) == *class_fmt && me_uri.as_ref().ok() == Some(&p.uri), sinput, || format!("{sel_shown} offered={shown}"));
+                                let key = info_key(me);
+                                let second_slot = *class_fmt == 2 && k == 1;
+                                let beaten = v.iter().any(|(u, us)| fmt_number(&u.encoding) == *class_fmt && us.is_ok()
+                                    && (*class_fmt == 1 || u.is_iftx == p.is_iftx)
+                                    // a partial candidate of the second table is excluded if it is the uri picked for the first
+                                    && !(second_slot && us.as_ref().ok() == ift_uri)
+                                    && info_key(u) > key);
+                                s.oracle("invalidating-choice-is-max", !beaten, sinput, || format!("{sel_shown} offered={shown}"));
+                            }
+                        }
+                    }
+                    // every selected patch is an offered one
+                    let all_infos: Vec<&pgh::PatchInfoView> = match g {
+                        pgh::GroupView::Full(p) => vec![p],
+                        pgh::GroupView::Mixed { ift, iftx } => [ift, iftx].into_iter().flat_map(|sc| match sc {
+                            pgh::ScopeView::PartialInvalidation(p) => vec![p],
+                            pgh::ScopeView::NoInvalidation(m) => m.iter().collect(),
+                        }).collect(),
+                    };
+                    let ok = all_infos.iter().all(|p| v.iter().any(|(u, us)| ident(u) == (p.is_iftx, p.application_flag_bit_index) && us.as_ref().ok() == Some(&p.uri)));
+                    s.oracle("group-is-subset-of-offer", ok, sinput, || format!("{sel_shown} offered={shown}"));
+                    // progress: a non-empty offer with at least one usable candidate yields uris
+                    if !v.is_empty() { s.oracle("nonempty-offer-gives-nonempty-group", *has, sinput, || format!("{sel_shown} offered={shown}")); }
                 }
             }
         }
@@ -964,9 +1004,10 @@ fn decode_cases(s: &mut Session, rng: &mut Rng, n: usize) {
 fn uri_cases(s: &mut Session, rng: &mut Rng, n: usize) {
     // expand_template is crate-private: observe it through a one-entry format-2 table
     for i in 0..n {
-        let template: Vec<u8> = if i < 260 {
+        let template: Vec<u8> = if i < 768 {
             // every byte value in literal position, and after '%' / inside an expression
-            match i % 3 { 0 => vec![b'a', (i / 3) as u8 + if i >= 255 { 170 } else { 0 }, b'{', b'i', b'd', b'}'], 1 => vec![b'%', (i / 3) as u8, b'4'], _ => vec![b'{', b'd', (i / 3) as u8, b'}'] }
+            let b = (i / 3) as u8;
+            match i % 3 { 0 => vec![b'a', b, b'{', b'i', b'd', b'}'], 1 => vec![b'%', b, b'4'], _ => vec![b'{', b'd', b, b'}'] }
         } else if rng.chance(1, 3) { gen_template(rng) } else {
             let pool = b"{}idd1234%6AaZz/_-.~ =?#\x7f\x80\xc9";
             (0..rng.below(10)).map(|_| *rng.pick(pool)).collect()
@@ -1060,7 +1101,7 @@ fn run_cases(s: &mut Session, rng: &mut Rng, n: usize) {
         }
         let has_iftx = rng.chance(2, 3);
         let sc = Scenario { ift: pool[0].0.clone(), iftx: if has_iftx { pool[1].0.clone() } else { TableSpec::None }, maxp: 3, cmap: vec![] };
-        let (font0, ta, tb) = sc.build();
+        let (font0, ta, tb) = sc.build(true);
         let pool_built: Vec<BuiltTable> = pool.iter().map(|(t, _)| sc.build_table(t, &[]).unwrap()).collect();
         // the universe of uris: every entry of every pool table, offered under "all"
         let mut server: Vec<(String, u8, [u8; 16], Option<usize>, Option<usize>)> = vec![];
@@ -1225,6 +1266,9 @@ fn f1_overflow_cases(s: &mut Session) {
 }
 
 fn run(cfg: &Config, s: &mut Session) {
+    if std::env::var("C19_DEBUG").is_ok() {
+        std::panic::set_hook(Box::new(|i| eprintln!("{i}")));
+    }
     let mut rng = Rng::new(cfg.seed);
     let scale = if cfg.thorough() { 12 } else { 1 };
     uri_cases(s, &mut rng, 1500 * scale);
